@@ -68,6 +68,10 @@ var sites = []site{
 	// ---- transaction admission (C09)
 	{"preCheck", "eth/core/state_transition.go", "preCheck", "tree", "", "", "C09"},
 	{"executeKVTx", "chain/app/evm/evm.go", "executeKVTx", "tree", "", `state\.SetNonce`, "C09 C05"},
+	// ---- transaction pool admission (C19), peer admission (C20), received bit arrays (C08)
+	{"checkAndAdd", "chain/app/evm/tx_pool.go", "CheckAndAdd", "tree", "", `^tp\.all\[tx\.Hash\(\)\] = rawTx$`, "C19"},
+	{"admit_exempt", "gemmill/angine.go", "authByCA", "if", `valset\.HasAddress`, "", "C20"},
+	{"bitarray_wf", "gemmill/consensus/pbft/reactor.go", "wellFormedBitArray", "return", `bA`, "", "C08"},
 	// ---- transport framing (C20)
 	{"packet_isLast", "gemmill/p2p/connection.go", "nextMsgPacket", "if", `len\(ch\.sending\)\W+maxMsgPacketPayloadSize`, "", "C20"},
 	{"packet_take", "gemmill/p2p/connection.go", "nextMsgPacket", "slicehi", `^ch\.sending\[:`, "", "C20"},
@@ -175,6 +179,10 @@ func flat(e ast.Expr) (string, bool) {
 		return flat(x.X)
 	case *ast.StarExpr:
 		return flat(x.X)
+	case *ast.BasicLit:
+		if x.Kind == token.STRING {
+			return regexp.MustCompile(`[^A-Za-z0-9]+`).ReplaceAllString(strings.Trim(x.Value, "\"`"), "_"), true
+		}
 	case *ast.IndexExpr:
 		a, ok1 := flat(x.X)
 		b, ok2 := flat(x.Index)
